@@ -147,6 +147,14 @@ func vpC15Gen(t *rapid.T) vpC15Scenario {
 					// then is the kernel's business, not fasthttp's: keep that variant off real sockets
 					c.Split = false
 				}
+				if c.Release == 1 && vpKnownOpen(vpC15KeyWake) && os.Getenv("VP_C15_FORCE_WAKE") == "" {
+					// known finding (idle close races with a new request), pipelined form: between two pipelined
+					// requests the connection is flagged idle although the next request is already buffered or
+					// on its way; a Shutdown that starts right then closes it under the running handler. That
+					// needs a handler that returns just before the stop flag is set: Release==1.
+					vpExclude(vpC15KeyWake)
+					c.Release = 2
+				}
 				if pipeKnown && !sc.ReduceMem {
 					// known finding: a response that is still in the write buffer because successors are already
 					// buffered is dropped when the loop-end check sees the stop flag. ReduceMemoryUsage always
@@ -680,6 +688,9 @@ func vpC15RunScenario(t *rapid.T, sc vpC15Scenario) {
 				j, sc.Conns[j].Phase, vpC15Slack, sc)
 		}
 	}
+	if vpC15DebugSkipResp {
+		return
+	}
 	// 5. responses
 	r.log.mu.Lock()
 	started := map[string]bool{}
@@ -765,6 +776,8 @@ func vpC15RunScenario(t *rapid.T, sc vpC15Scenario) {
 		}
 	}
 }
+
+var vpC15DebugSkipResp = os.Getenv("VP_C15_SKIPRESP") != "" // harness debugging only: stop after the liveness checks
 
 // vpC15Stacks returns the stacks of the goroutines whose trace mentions one of the needles.
 func vpC15Stacks(needles ...string) string {
